@@ -26,6 +26,7 @@ ASSUMPTIONS = [
 ]
 BUDGET = 300000
 CONFIRM_BUDGET = 150000000
+CONFIRM_BUDGET_ORDINARY = 30000000
 SHARD_TIMEOUT = {"quick": 400, "thorough": 3000}
 
 
@@ -185,14 +186,18 @@ class Runner:
             ctx.violation("C13:%s:hang" % callee, "%s exceeded %d steps (callee already confirmed hanging)" % (prog, BUDGET), {"src": prog})
             return o
         env = self.Env()
-        o2 = observe(lambda: self.it.interpret(prog, "c13", env), CONFIRM_BUDGET)
+        # (only results of factorial size take tens of millions of steps; everything else gets a smaller second chance,
+        # so that a change which makes many forms hang is still reported within the shard's time)
+        big = callee.split("->")[-1] in SUPER_POLYNOMIAL
+        confirm = CONFIRM_BUDGET if big else CONFIRM_BUDGET_ORDINARY
+        o2 = observe(lambda: self.it.interpret(prog, "c13", env), confirm)
         ctx.count("hang_confirmations")
         if o2.kind != "hang":
             ctx.count("slow_but_terminating")
-            ctx.maxstat("max_steps_slow_case", o2.steps)
+            ctx.maxstat("max_steps_slow_case" if big else "max_steps_slow_ordinary_case", o2.steps)
             self.fresh()
             return o2
-        ctx.violation("C13:%s:hang" % callee, "%s exceeded %d steps" % (prog, CONFIRM_BUDGET), {"src": prog})
+        ctx.violation("C13:%s:hang" % callee, "%s exceeded %d steps" % (prog, confirm), {"src": prog})
         self.confirmed_hangs.add(callee)
         self.fresh()
         return o
@@ -272,7 +277,8 @@ def finalize(merged, tier):
     extra = {"step_budget": BUDGET, "max_steps_terminating": mx.get("max_steps_terminating")}
     extra["confirm_budget"] = CONFIRM_BUDGET
     extra["max_steps_slow_case"] = mx.get("max_steps_slow_case")
-    if mx.get("max_steps_slow_case", 0) * 2 > CONFIRM_BUDGET:
+    extra["max_steps_slow_ordinary_case"] = mx.get("max_steps_slow_ordinary_case")
+    if mx.get("max_steps_slow_case", 0) * 2 > CONFIRM_BUDGET or mx.get("max_steps_slow_ordinary_case", 0) * 2 > CONFIRM_BUDGET_ORDINARY:
         reasons.append("a terminating case used more than half of the confirmation budget; margin too small")
     return extra, reasons
 
